@@ -223,10 +223,16 @@ class OpsMixin(object):
                 return v
             if base.name == "os" and attr == "linesep":
                 return Const("\n")
+            ev = self.__dict__.get("ext_values", {}).get(base.name + "." + attr)
+            if ev is not None:
+                return ev
             return ExtV(base.name + "." + attr)
         if isinstance(base, ExtV):
             if base.name == "os" and attr == "linesep":
                 return Const("\n")
+            ev = self.__dict__.get("ext_values", {}).get(base.name + "." + attr)
+            if ev is not None:
+                return ev
             return ExtV(base.name + "." + attr)
         if isinstance(base, InstV):
             if attr in base.attrs:
@@ -255,8 +261,17 @@ class OpsMixin(object):
                 return BoundBuiltin(base, attr)
             raise RaiseSignal(ExcV(ExtV("builtins.AttributeError"), [Const(attr)]), node)
         if isinstance(base, Opaque):
+            if self.__dict__.get("attr_guard", 0):
+                h = self.hasattr(base, attr)
+                if h is False:
+                    raise RaiseSignal(ExcV(ExtV("builtins.AttributeError"), [Const(attr)]), node)
+                if not isinstance(h, bool):
+                    # inside try/except AttributeError: whether this read raises is exactly what the handler is for
+                    self.err(node, "attribute %s of an object that may lack it, inside a try block catching AttributeError" % attr)
             return Opaque(("attr", base.path, attr))
         if isinstance(base, ExcV):
+            if attr in getattr(base, "attrs", {}):
+                return base.attrs[attr]
             if attr == "args":
                 return ListV(list(base.args) or [Const("")], "tuple")
             if attr == "message":
@@ -348,6 +363,9 @@ class OpsMixin(object):
             and ci.lookup("__getattr__") is None and ci.lookup("__getattribute__") is None
         if inst is not None and closed and not any(isinstance(v, Phi) for v in inst.attrs.values() if False):
             # a concrete object of a class whose whole hierarchy is in the package: the attribute does not exist
+            if node is None and attr.startswith("_") and not attr.startswith("__"):
+                # asked for by a check itself (no call site in the package): the check relies on a private name
+                raise AnalysisError("the check relies on the private attribute %s.%s, which this tree does not have" % (ci.name, attr))
             raise RaiseSignal(ExcV(ExtV("builtins.AttributeError"), [Const("'%s' object has no attribute '%s'" % (ci.name, attr))]), node)
         self.err(node, "%s has no attribute %s" % (ci.name, attr))
 
